@@ -2,6 +2,7 @@
 from __future__ import annotations
 
 import ast
+import itertools
 from typing import List
 
 from ..cfg import cfg_of
@@ -394,6 +395,29 @@ def check(run, prog):
            (f"peek() at the spelling {wrong_ctx[1]!r} standing right after {wrong_ctx[0]!r} returns {wrong_ctx[3]!r}, expected "
             f"{wrong_ctx[2]!r}: whether a spelling is translated depends on the characters before it") if wrong_ctx else "",
            pk.node, contexts_x_keys=n_ctx)
+    # ... nor on what stands to its right (C has no `<::` exception; a spelling is translated wherever it stands): every key
+    # followed by every string of <= 2 spelling characters that does not make a longer key
+    wrong_right = None
+    n_right = 0
+    try:
+        for k, v in sorted(keys.items()):
+            for m in (1, 2):
+                for tail in itertools.product(alphabet + ["x"], repeat=m):
+                    right = "".join(tail)
+                    if any(len(k2) > len(k) and (k + right).startswith(k2) for k2 in keys):
+                        continue
+                    n_right += 1
+                    sim = LexerSim(prog, k + right + "x")
+                    out = sim.call("peek")
+                    got = tuple(out.value) if out.kind == "ok" and isinstance(out.value, (tuple, list)) else out
+                    if got != (v, len(k)) and wrong_right is None:
+                        wrong_right = (k, right, (v, len(k)), got)
+    except Unsupported as e:
+        raise Undecided(f"Lexer.peek is outside the evaluable subset: {e}")
+    run.ob("R-12.1", f"{pk.key}::right-context-independent", wrong_right is None,
+           (f"peek() at the spelling {wrong_right[0]!r} followed by {wrong_right[1]!r} returns {wrong_right[3]!r}, expected "
+            f"{wrong_right[2]!r}: whether a spelling is translated depends on the characters after it") if wrong_right else "",
+           pk.node, keys_x_right_contexts=n_right)
     # ... and the whole tokenizer gives a punctuator the same kind in every spelling: get_next_token (with the tree's own
     # sub-parsers and whatever selects among them) on each digraph / trigraph and on the character it stands for
     gnt = prog.method("Lexer", "get_next_token")
